@@ -261,8 +261,8 @@ inductive Verdict where
   | knownOrder        -- F-C15a
 deriving Repr, DecidableEq
 
-def condStatic (confs : List Conf) (D : List LivePath) : Bool :=
-  confs.all fun c => c.regex || hasPath D c.name
+def condStatic (confs : List Conf) (exS : List Bytes) (D : List LivePath) : Bool :=
+  confs.all fun c => c.regex || hasPath D c.name || exS.contains c.name
 
 def condResolve (orc : Oracle) (confs : List Conf) (D : List LivePath) : Bool :=
   D.all fun p => (resolve orc confs p.name).isSome
@@ -278,9 +278,11 @@ def condGroups (orc : Oracle) (confs : List Conf) (exG : List Bytes) (D : List L
     | none => false
 
 /-- the clauses about the state alone.  `exG` / `exO` = path objects (by name) whose capture groups /
-configuration are excused because they lie in a known-finding class (both empty = the property). -/
-def specState (orc : Oracle) (confs : List Conf) (exG exO : List Bytes) (D : List LivePath) : Verdict :=
-  if !condStatic confs D then .failStatic
+configuration are excused because they lie in a known-finding class, `exS` = static configurations
+whose missing path is excused (all empty = the property). -/
+def specState (orc : Oracle) (confs : List Conf) (exG exO : List Bytes) (D : List LivePath)
+    (exS : List Bytes := []) : Verdict :=
+  if !condStatic confs exS D then .failStatic
   else if !condResolve orc confs D then .failResolve
   else if !condConf orc confs exO D then .failConf
   else if !condGroups orc confs exG D then .failGroups
